@@ -86,6 +86,24 @@ def mesh_from_faces(xf):
     return m
 
 
+def use_on_stretched_twin_mesh(rng, model, mesh, num, flux, prim, bcL, bcR):
+    """call history for scheme / model objects: they are used once on a NON-uniform mesh that has the same number of cells, the same
+    length and the same origin as `mesh` (anything remembered under such a key -- distances, geometry -- would now be stale)"""
+    from . import probes as _probes
+    xf = np.asarray(mesh.xf, float)
+    L = float(xf[-1] - xf[0])
+    xi = (xf - xf[0]) / L
+    faces = xf[0] + L * (xi + float(rng.uniform(0.2, 0.8)) * np.sin(2 * np.pi * xi) / (2 * np.pi))
+    faces[0], faces[-1] = xf[0], xf[-1]
+    m2 = fmesh.refinedmesh(ncell=mesh.ncell, length=L, ratio=float(rng.choice([2.0, 0.5, 3.0]))) if (rng.random() < 0.5 and xf[0] == 0.0 and mesh.ncell >= 2) else mesh_from_faces(faces)
+    try:
+        with _probes.quiet(), np.errstate(all="ignore"):
+            d2 = md.fvm(model, m2, num, numflux=flux, bcL=bcL, bcR=bcR)
+            d2.rhs(fdata_prim(model, m2, prim))
+    except (np.linalg.LinAlgError, FloatingPointError, ValueError):
+        pass
+
+
 def mesh2d(rng, nmax=6, nmin=1, big=0.0):
     nx, ny = int(rng.integers(nmin, nmax + 1)), int(rng.integers(nmin, nmax + 1))
     if big and rng.random() < big:      # a large grid (several hundred cells)
